@@ -381,6 +381,15 @@ pub fn c07_post(progs: &[Prog], reports: &[serde_json::Value]) -> Vec<(usize, se
                 bad = Some((is, format!("with every callback using 256 KiB of stack: {}! {}, {}! {}, {}! {}", progs[ip].mac, dp, progs[is].mac, ds, progs[ia].mac, da)));
             }
         }
+        if bad.is_none() && (rp["c07"]["gated"] != rs["c07"]["gated"] || rs["c07"]["gated"] != ra["c07"]["gated"]) {
+            bad = Some((
+                is,
+                format!(
+                    "a branch fails while its siblings are pending: {}! {} / {}! {} / {}! {}",
+                    progs[ip].mac, rp["c07"]["gated"], progs[is].mac, rs["c07"]["gated"], progs[ia].mac, ra["c07"]["gated"]
+                ),
+            ));
+        }
         if bad.is_none() && rs["c07"]["spawn_sig"] != ra["c07"]["spawn_sig"] {
             bad = Some((ia, format!("alias {}! reaches {} pending points within the first poll, {}! reaches {}: one spawns tasks, the other does not", progs[ia].mac, ra["c07"]["spawn_sig"], progs[is].mac, rs["c07"]["spawn_sig"])));
         }
